@@ -33,6 +33,7 @@ IMPLEMENTED_OPCODES = {
     "TextMessageProtocol": ("GroupShortData", "GroupShortDataAck", "PrivateShortData", "PrivateShortDataAck", "SendGroupMessage", "SendGroupMessageAck",
                             "SendPrivateMessage", "SendPrivateMessageAck"),
 }
+MIN_CAPTURES_FOLLOWED = 37   # distinct captured packets (hex constants of the tests) followed through reader and writer today
 MIN_SHAPES = {"RadioRegistrationService": 2, "LocationProtocol": 2, "TextMessageProtocol": 3, "RadioControlProtocol": 4, "HRNP": 4, "HSTRP": 3}
 
 
@@ -263,6 +264,7 @@ def run(ctx):
         ctx.saw_func(decoders[cls][1])
     # ---- phase 1: shapes by constant evaluation of the captures
     shapes = {}
+    decoded_captures = set()
     I0 = Interp(repo)
     I0.uninterpreted_arith = True
     install(I0, repo, concrete=True)
@@ -290,6 +292,12 @@ def run(ctx):
             top = o.cls.name
             shp = (dname, shape_of(o))
             shapes.setdefault(shp, (fname, raw, dname))
+            decoded_captures.add(raw)
+    # every capture that was followed through reader and writer on the reference tree must still be: a packet that drops out here
+    # (a construct the interpreter stopped following, a reader that now refuses it) would take its shape out of the analysis silently
+    ctx.extra["captures_followed"] = len(decoded_captures)
+    if len(decoded_captures) < MIN_CAPTURES_FOLLOWED:
+        raise AnalysisError(f"only {len(decoded_captures)} of the captured packets are followed through reader and writer ({MIN_CAPTURES_FOLLOWED} on the reference tree) — shapes would be missing")
     # ---- phase 1b: sibling shapes — the captured object re-encoded under every other opcode of its service
     # (constant evaluation; kept when writer and reader accept it), so opcodes without a capture are covered too
     hd_ci, hd_fb = decoders["HDAP"]
